@@ -162,7 +162,7 @@ class UnsignedLongBE(Int):
 class CharAscii(TypeDefinition):
     to_str: Callable[[str], str] = str
     from_str: Callable[[str], str] = str
-    to_bytes: _StringPackable = lambda x: (TypeSize.CHAR, x[:TypeSize.CHAR].encode(_ASCII))
+    to_bytes: _StringPackable = lambda x: (TypeSize.CHAR, x[:TypeSize.CHAR].ljust(TypeSize.CHAR).encode(_ASCII))
     from_bytes: _StringUnPackable = lambda x: (TypeSize.CHAR, x[:TypeSize.CHAR].decode(_ASCII))
     hint = 'str'
     type_cls = str
@@ -171,7 +171,7 @@ class CharAscii(TypeDefinition):
 
 @TypeDefinition.add_type('char_iso-8859-1')
 class CharIso8599(CharAscii):
-    to_bytes: _StringPackable = lambda x: (TypeSize.CHAR, x[:TypeSize.CHAR].encode('iso-8859-1'))
+    to_bytes: _StringPackable = lambda x: (TypeSize.CHAR, x[:TypeSize.CHAR].ljust(TypeSize.CHAR).encode('iso-8859-1'))
     from_bytes: _StringUnPackable = lambda x: (TypeSize.CHAR, x[:TypeSize.CHAR].decode('iso-8859-1'))
 
 
@@ -210,7 +210,7 @@ class FixedAsciiString(TypeDefinition):
 
     def to_bytes(self, value: str) -> Tuple[int, bytes]:
         value = value.rjust(self.length) if self.right_justified else value.ljust(self.length)
-        return self.length, value.encode(_ASCII)
+        return self.length, value[:self.length].encode(_ASCII)
 
     def from_bytes(self, data: bytes) -> Tuple[int, str]:
         return self.length, data[:self.length].decode(_ASCII).strip()
@@ -230,7 +230,7 @@ class FixedIsoString(TypeDefinition):
 
     def to_bytes(self, value: str) -> Tuple[int, bytes]:
         value = value.rjust(self.length) if self.right_justified else value.ljust(self.length)
-        return self.length, value.encode(_ISO_STR)
+        return self.length, value[:self.length].encode(_ISO_STR)
 
     def from_bytes(self, data: bytes) -> Tuple[int, str]:
         return self.length, data[:self.length].decode(_ISO_STR).strip()
